@@ -10,7 +10,7 @@ from vf.spec import AnyT, ObjectT, Program, Unspecified, canon
 PROP = "C08"
 SHARDS = {"quick": 8, "thorough": 16}
 TIME_CAP = {"quick": 70, "thorough": 900}
-REQUIRED = ["constructor_shape_cases", "discriminated_purity_checks", "deser_pass_through_json_pairs", "deser_pairs", "deser_no_copy_pairs", "deser_ctor_pairs", "deser_method_vs_function", "deser_pass_through", "alias_walks", "purity_checks", "ser_pairs", "ser_no_copy_pairs", "ser_check_type_pairs", "ser_pass_through_pairs", "ser_alias_walks", "programs"]
+REQUIRED = ["directed_shape_programs", "constructor_shape_cases", "discriminated_purity_checks", "deser_pass_through_json_pairs", "deser_pairs", "deser_no_copy_pairs", "deser_ctor_pairs", "deser_method_vs_function", "deser_pass_through", "alias_walks", "purity_checks", "ser_pairs", "ser_no_copy_pairs", "ser_check_type_pairs", "ser_pass_through_pairs", "ser_alias_walks", "programs"]
 # compiled-tree node classes this workload is expected to reach: reported as coverage gaps when missing, never a verdict
 # (a renamed internal class must not turn into an alarm)
 EXPECTED_NODES = ["node:ListCheckOnlyMethod", "node:ListMethod", "node:MappingCheckOnly", "node:MappingMethod", "node:SimpleObjectMethod", "node:ObjectMethod", "node:FieldsConstructor"]
@@ -582,6 +582,22 @@ def run(env):
     disc.run_family(env, disc.check_purity, env.n(96, 3000))  # discriminated-union families first (their own budget)
     harness.tag_errors(False)
     rng = env.rng
+    for i, (label, build) in enumerate(gen_types.directed_shapes()):
+        if i % env.nshards != env.shard:
+            continue
+        prog = Program(build(gen_types.Gen(rng, max_depth=2)))
+        try:
+            prog.load()
+        except Exception:
+            env.count("program_load_failed")
+            continue
+        try:
+            values = check_deser(env, prog, "directed:" + label, ndata=20)
+            if values:
+                check_ser(env, prog, values, "directed:" + label)
+            env.count("directed_shape_programs")
+        finally:
+            prog.unload()
     n = env.n(2600, 60000)
     small = [b for _, b in gen_types.enumerate_small(depth2=False)]
     for j in range(n):
